@@ -4,7 +4,7 @@ from __future__ import annotations
 from ..core.runner import HarnessError
 from ..ctext.odetext import NotC, read_ode
 from . import odecommon as oc
-from .c02 import modifier_cases, modifier_thermal_cases
+from .c02 import modifier_cases, modifier_new_entry_cases, modifier_thermal_cases
 
 LEVEL = "exploration"
 
@@ -17,6 +17,7 @@ def cases(tier):
     yield from oc.enum_S3(tier)
     yield from oc.enum_S4(tier)
     yield from modifier_thermal_cases("quick")
+    yield from modifier_new_entry_cases(tier)
     if tier != "quick":
         yield from modifier_cases("quick")
 
